@@ -28,6 +28,23 @@ package mqttproxy
 // towards the recording pipeline (optionally with a publish limiter and a
 // pipeline that drops some topics).
 //
+// Population dynamics (about half of the scenarios): UNSUBSCRIBE steps, clients
+// that end their connection (DISCONNECT, close, reset), new client ids joining
+// late, and client ids that connect again: after the old connection has ended
+// (reconnect) or while it is still open (take-over; the superseded connection
+// then ends later by close/reset/DISCONNECT/PINGREQ or never), over nested
+// topics so that one client's filter is a strict level-prefix of another's.
+// Obligations under dynamics: a connection is judged from its own CONNACK /
+// SUBACK / UNSUBACK on and only while it stays connected; it is no longer
+// judged once it ends itself, once another connection with its id starts to
+// dial, or if it connects while a delete-watch echo of an earlier clean
+// session of its id may be pending (known C16 findings). cleanSession=0 is used
+// only by the first connection of an id (no inherited sessions: C16). A
+// connection that stays connected and subscribed must get every message
+// whatever the others do (C15.delivery-lost-after-subscriber-churn).
+// A broker lock that cannot be read-locked during 21 polls is reported as
+// C15.broker-deadlock.
+//
 // Reference model (from the property statement, MQTT 3.1.1 §4.7 for filter
 // matching; nothing is copied from the implementation):
 //   * a client's subscription state is what it had acknowledged by SUBACK; while
@@ -83,7 +100,7 @@ package mqttproxy
 //     limiter every client PUBLISH must reach the pipeline. PUBACK for a QoS1
 //     PUBLISH the pipeline dropped: both answers accepted.
 //   * not generated: QoS2, invalid filters, '$' topics, empty levels, retained
-//     messages, wills, takeover of a client id (C16), unsubscribe (C14).
+//     messages, wills, inherited (cleanSession=0) sessions on a re-used id (C16).
 //   * clients that stop reading for good are generated in the thorough tier (in
 //     the quick tier only when c15HangScenarios is true); their own deliveries
 //     are not judged.
@@ -2031,7 +2048,7 @@ func TestVerifC15(t *testing.T) {
 		Shrink:   c15Shrink,
 		MaxSteps: 600000,
 		DeadlockClass: "C15.deadlock",
-		Rule: "scenario = 2-6 raw MQTT clients with 1-6 overlapping filters of QoS 0/1 over 1-4 topics (1-2 SUBSCRIBE packets, late re-subscriptions), per-client PUBACK behaviours (prompt, omit k, delay, duplicate, +PINGREQ), optional read stall, client PUBLISH ops; 1-2 publishers with 1-8 HTTP publishes each (QoS 0/1, bursts up to 120), limiter/pipeline-drop knobs, simnet buffer/segment/latency plan; " +
+		Rule: "scenario = 2-9 raw MQTT connections (in ~55% of the scenarios with unsubscribes, disconnects, late joiners, reconnects and take-overs of client ids, prefix-nested filters) with 1-6 overlapping filters of QoS 0/1 over 1-4 topics (1-2 SUBSCRIBE packets, late re-subscriptions), per-client PUBACK behaviours (prompt, omit k, delay, duplicate, +PINGREQ), optional read stall, client PUBLISH ops; 1-2 publishers with 1-8 HTTP publishes each (QoS 0/1, bursts up to 120), limiter/pipeline-drop knobs, simnet buffer/segment/latency plan; " +
 			"non-trivial = some message had >=2 eligible subscribers and (a QoS1 message had both eligible and lower-QoS subscribers, or a retransmission was observed); distinct = distinct (final subscriptions, per-client sequence of received messages with copy counts) signatures",
 		Real: []string{"pkg/object/mqttproxy: newBroker, Broker.run/handleConn/connectionValidation/setSession, sendMsgToClient, httpTopicsPublishHandler, Client.readLoop/writeLoop/processPacket (SUBSCRIBE, PUBLISH, PUBACK, PINGREQ), pipelineWrapper, Limiter, SessionManager, Session.publish/puback/doResend/backgroundResendPending (200 ms ticker on the virtual clock), TopicManager",
 			"pkg/util/ratelimiter (publish limiter)", "github.com/eclipse/paho.mqtt.golang/packets codec on both sides"},
@@ -2045,7 +2062,10 @@ func TestVerifC15(t *testing.T) {
 			"a subscriber whose matching filters all have a lower QoS may receive a downgraded copy or nothing; a copy at the message's QoS is a violation",
 			"retransmission interval not asserted; copies between the client's PUBACK and a PINGRESP proving its processing are legal; duplicate QoS0 copies not judged",
 			"with a publish limiter, 'passed the limiter' is read off the recording pipeline; PUBACK for a PUBLISH the pipeline dropped: both accepted",
-			"not generated: QoS2, invalid filters, '$' topics, wills, retained, client-id takeover, unsubscribe, keep-alive expiry (keep-alive 0)",
+			"not generated: QoS2, invalid filters, '$' topics, wills, retained, keep-alive expiry (keep-alive 0), cleanSession=0 on a re-used client id (inherited sessions are C16's subject), SUBSCRIBE/UNSUBSCRIBE by a connection that is going to be superseded",
+			"population dynamics: a connection is judged from its own CONNACK/SUBACK/UNSUBACK on while it stays connected; not judged any more once it ends itself, once another connection with its client id starts to dial, or when it connects while the delete-watch echo of an earlier clean session of its id may be pending (known C16 findings); messages issued before the CONNACK of a re-used id may or may not reach the new connection",
+			"a QoS1 copy of a message issued before the CONNACK of a re-used client id is treated as an ordinary message only if the id's current session holds it under that packet id (white-box look, decides the client's behaviour only); otherwise it is neither acknowledged nor judged (it stems from the predecessor's session)",
+			"C15.broker-deadlock = Broker.getClient not returning during 21 polls of 300 ms",
 			fmt.Sprintf("clients that stop reading for good while connected are generated in the thorough tier, in the quick tier only when c15HangScenarios (=%v); their own deliveries are not judged, a message another client misses in such a run is classed C15.fanout-blocked-by-unresponsive-subscriber when the unresponsive client matches its topic", c15HangScenarios),
 		},
 	})
